@@ -1,0 +1,24 @@
+//go:build verif
+
+// Contracts for the deductive verifier in /verif (govc). Comments only.
+
+package run
+
+//@ pred rulesOK(s header.Headers) = forall i int :: 0 <= i && i < len(s) ==> (s[i].Action == 3 ==> s[i].Value != nil)
+
+// L16.4: CONNECT requests get the connect rules and only those; every other
+// request gets the request rules.
+//@ func (*command).configureHeadersModifiers$1
+//@ property C16
+//@ requires req != nil && req.Header != nil && rulesOK(connectHeaders) && rulesOK(requestHeaders)
+//@ modifies *, rulesOnReq(req)
+//@ ensures old(req.Method) == "CONNECT" ==> rulesOnReq(req) == old(connectHeaders)
+//@ ensures old(req.Method) != "CONNECT" ==> rulesOnReq(req) == old(requestHeaders)
+
+// Responses to CONNECT get no rules; every other response gets the response rules.
+//@ func (*command).configureHeadersModifiers$2
+//@ property C16
+//@ requires resp != nil && resp.Header != nil && rulesOK(headers)
+//@ modifies *, rulesOnRes(resp)
+//@ ensures old(resp.Request != nil && resp.Request.Method == "CONNECT") ==> rulesOnRes(resp) == old(rulesOnRes(resp)) && result == nil
+//@ ensures !old(resp.Request != nil && resp.Request.Method == "CONNECT") ==> rulesOnRes(resp) == old(headers)
